@@ -61,11 +61,15 @@ CLAIMED = {
          "repeated fields and both protobuf back ends: bounded stand-in."),
  "C07": ("proof", "4.IO", "Integer (8 widths), bool, string, UUID and Offset codecs: encode and decode are proved against the wire-format "
          "definition for all values and the round trip (value and byte count) is a lemma over the two contracts; Serialization.encode/"
-         "decode top level proved over abstract tree codecs. Container codecs, float/double and codec dispatch: bounded stand-in."),
+         "decode top level proved over abstract tree codecs. Container codecs under contract with loop invariants for any number of "
+         "elements: sequence/set/mapping/tuple/variant encode and decode (set and mapping encoders relative to the iteration sequence "
+         "of the Python collection, which is an assumption named in the evidence), float/double relative to struct's contract. "
+         "The round trip of whole nested values, IEEE bit patterns and codec dispatch: bounded stand-in."),
  "C08": ("proof", "4.IO", "Encode contracts state the appended bytes against the documented format and are proved for all values of the leaf "
-         "types; decode contracts give the value of conforming foreign bytes; AuxData._to_protobuf proved to write the encoding of the "
-         "current value under the current type name. Containers/floats: bounded byte-for-byte comparison with an independent encoder; "
-         "the Java codec is not executed."),
+         "types and, with loop invariants, for the containers (count as uint64, then the elements / key-value pairs / fields in "
+         "iteration order, variant index then the alternative); decode contracts give the value of conforming foreign bytes; "
+         "AuxData._to_protobuf proved to write the encoding of the current value under the current type name. Whole nested values "
+         "and floats: bounded byte-for-byte comparison with an independent encoder; the Java codec is not executed."),
  "C09": ("proof", "4.IO", "Proved for all tables and messages: decode-or-reuse by UUID with kind check for 7 node classes, symbol referents, "
          "symbolic-expression symbols, CFG endpoints and AuxData UUID/Offset entries resolve to the very table entry; wrong kinds and "
          "missing nodes raise DeserializationError; the module entry point is the table entry and must be a CodeBlock; CFG._from_protobuf "
